@@ -701,6 +701,9 @@ class ParsedPlot(object):
                             if not same_value(tv, float("%.16e" % v)) and not same_value(tv, v):
                                 P.append("level %d box %d comp %d: %s %r != data %r" % (lv, b, c, nm, tok, v))
             for d in range(nd):
+                if self.domain[lv][d] <= 0:
+                    P.append("level %d dim %d: the domain has %d cells" % (lv, d, self.domain[lv][d]))
+                    continue
                 exp = (self.geo_hi[d] - self.geo_lo[d]) / self.domain[lv][d]
                 if abs(exp - self.dx[lv][d]) > 1e-9 * abs(exp):
                     P.append("level %d dim %d: dx %r != extent/cells %r" % (lv, d, self.dx[lv][d], exp))
